@@ -449,7 +449,19 @@ class Obj(Sym):
             return self.attrs[attr]
         if self.tag == 'parser' and attr == 'parse':
             return I.MethodOf(self, 'parse')
+        if self.tag == 'calc':
+            # any other attribute of the evaluator: state left behind by earlier calls, about which nothing is known
+            self.attrs[attr] = PriorState(attr)
+            return self.attrs[attr]
         return NotImplemented
+
+
+class PriorState(Sym):
+    """an attribute of the evaluator that earlier calls may have left in any state: membership tests are undetermined,
+    lookups yield an unknown value, stores are remembered"""
+
+    def __init__(self, name):
+        self.name, self.stored = name, []
 
 
 def ceval_setup(vm, module, env):
@@ -482,7 +494,26 @@ def ceval_hooks():
             return st['R']
         return NotImplemented
 
-    return {'getattr': getattr_, 'setattr': setattr_, 'method': method}
+    def contains(vm, container, item):
+        if isinstance(container, PriorState):
+            return SBool(vm.fresh('%s.has' % container.name, z3.BoolSort()))
+        return NotImplemented
+
+    def index(vm, obj, idx):
+        if isinstance(obj, PriorState):
+            for k, v in reversed(obj.stored):
+                if k is idx:
+                    return v
+            return Obj('value left in self.%s by an earlier call' % obj.name)
+        return NotImplemented
+
+    def setitem(vm, obj, idx, val):
+        if isinstance(obj, PriorState):
+            obj.stored.append((idx, val))
+            return None
+        return NotImplemented
+
+    return {'getattr': getattr_, 'setattr': setattr_, 'method': method, 'contains': contains, 'index': index, 'setitem': setitem}
 
 
 def ceval_post(vm, st, result):
